@@ -413,6 +413,13 @@ func c10RandFault(r *Rand, l *c10LogT, h int, t tlog.Tile) c10Fault {
 	case 8:
 		f.Kind, f.A = "ext", 1+r.Intn(3)
 	case 9, 10:
+		if h > 30 {
+			// above the legal maximum the two tile servers (this one: tlog.ReadTileData; the Lean driver's: none) do not
+			// agree on WHICH foreign coordinates have a "true tile" at all — a property of the test environment, not of the
+			// code under test (thorough seed 37: 8 such ops disagreed, err:tile vs err:reader). No replacement fault there.
+			f.Kind, f.A, f.B = "flip", r.Intn(w), r.Intn(256)
+			break
+		}
 		f.Kind = "repl"
 		f.A = t.L
 		if r.Chance(30) {
